@@ -2,7 +2,7 @@
 # usage: thorough_all.sh [seed] [props...]  -- thorough tier of every check, one after the other
 cd "$(dirname "$0")/.."
 SEED=${1:-0}; shift
-PROPS=${@:-C03 C05 C06 C07 C08 C09 C11 C12 C15 C18 C19 C20}
+PROPS=${@:-C03 C05 C06 C07 C08 C09 C11 C12 C13 C15 C18 C19 C20}
 for p in $PROPS; do
   VERIF_SEED=$SEED timeout 3600 /venv/bin/python -m sim.check $p --tier thorough 2>&1 | grep -v Warning | tail -6
 done
